@@ -15,7 +15,10 @@
 //	                    step i<k> then runs the REAL ServeHTTP (it returns before any backend is selected)
 //	schedule i<k> / f<k> steps joined by '.' (clusterInvoke of request k / FinishReq of request k), and
 //	         u<b> / d<b> = health-check events on backend #b between them: u = what the checker does when the backend
-//	         recovers (SetRestart(true); SetAvail(true)), d = what UpdateStatus does (SetAvail(false))
+//	         recovers (SetRestart(true); SetAvail(true)), d = what UpdateStatus does (SetAvail(false));
+//	         x<b> = the backend table is reloaded without backend #b (BackendReload), also while requests are in flight on it
+//	         script chars '!' : fwd '!' = the HandleForward filter panics, rt '!' = RoundTrip panics (conn.serve recovers,
+//	         FinishReq never runs)
 //
 // and it is run against the REAL bfe_server.clusterInvoke / FinishReq with a real bal_gslb.BalanceGslb,
 // a scripted fake RoundTripper and a scripted fake HandleForward callback (hook bfe_server/zz_verif_c07.go).
@@ -89,8 +92,11 @@ type Scenario struct {
 	Sched      []Step
 }
 
-const FwdChars = "gfrpcxyzu"
+const FwdChars = "gfrpcxyzu!"
 const RtChars = "25cCwvWhHtbo"
+
+// RtCharsAll additionally has '!' = RoundTrip panics (kept out of RtChars: exhaustive enumerations use RtChars)
+const RtCharsAll = RtChars + "!"
 
 func (s *Scenario) String() string {
 	var b strings.Builder
@@ -262,7 +268,7 @@ func Parse(op string) (*Scenario, bool) {
 		}
 		if p[2] != "-" {
 			for _, a := range strings.Split(p[2], ".") {
-				if len(a) != 2 || !strings.Contains(FwdChars, a[:1]) || !strings.Contains(RtChars, a[1:]) {
+				if len(a) != 2 || !strings.Contains(FwdChars, a[:1]) || !strings.Contains(RtCharsAll, a[1:]) {
 					return nil, false
 				}
 				r.Script = append(r.Script, Attempt{a[0], a[1]})
@@ -275,14 +281,14 @@ func Parse(op string) (*Scenario, bool) {
 	}
 	// schedule
 	for _, f := range strings.Split(secs[3], ".") {
-		if len(f) < 2 || !strings.Contains("ifud", f[:1]) {
+		if len(f) < 2 || !strings.Contains("ifudx", f[:1]) {
 			return nil, false
 		}
 		k, err := strconv.Atoi(f[1:])
 		if err != nil || k < 0 {
 			return nil, false
 		}
-		if f[0] == 'u' || f[0] == 'd' {
+		if f[0] == 'u' || f[0] == 'd' || f[0] == 'x' {
 			if k > 63 {
 				return nil, false
 			}
@@ -333,13 +339,14 @@ type reqState struct {
 }
 
 type runner struct {
-	sc    *Scenario
-	env   *bfe_server.VerifC07Env
-	names []string
-	backs [][]*backend.BfeBackend
-	label map[*backend.BfeBackend]string
-	all   []*backend.BfeBackend
-	cur   *reqState
+	sc      *Scenario
+	env     *bfe_server.VerifC07Env
+	names   []string
+	backs   [][]*backend.BfeBackend
+	label   map[*backend.BfeBackend]string
+	all     []*backend.BfeBackend
+	removed map[*backend.BfeBackend]bool
+	cur     *reqState
 }
 
 func (r *runner) conn() string {
@@ -347,6 +354,23 @@ func (r *runner) conn() string {
 	for i := range r.backs {
 		for j, b := range r.backs[i] {
 			if n := b.ConnNum(); n != 0 {
+				parts = append(parts, fmt.Sprintf("%s%d=%d", r.names[i], j, n))
+			}
+		}
+	}
+	if len(parts) == 0 {
+		return "0"
+	}
+	sort.Strings(parts)
+	return strings.Join(parts, "+")
+}
+
+// fails renders the non-zero failNum of every backend (what OnFail / OnSuccess / SetAvail(true) leave behind).
+func (r *runner) fails() string {
+	var parts []string
+	for i := range r.backs {
+		for j, b := range r.backs[i] {
+			if n := b.FailNum(); n != 0 {
 				parts = append(parts, fmt.Sprintf("%s%d=%d", r.names[i], j, n))
 			}
 		}
@@ -374,6 +398,10 @@ func (r *runner) forward(req *bfe_basic.Request) int {
 		lab = r.label[req.Trans.Backend]
 	}
 	switch a.Fwd {
+	case '!':
+		c.events = append(c.events, lab+"P")
+		c.att++
+		panic("scripted panic in a HandleForward filter")
 	case 'f':
 		c.events = append(c.events, lab+"F")
 		c.att++
@@ -425,6 +453,8 @@ func (r *runner) RoundTrip(out *bfe_http.Request) (*bfe_http.Response, error) {
 	c.events = append(c.events, lab+"@"+r.conn())
 	inner := errors.New("scripted")
 	switch a.Rt {
+	case '!':
+		panic("scripted panic in RoundTrip")
 	case '2':
 		return &bfe_http.Response{StatusCode: 200, Body: bfe_http.EofReader}, nil
 	case '5':
@@ -536,7 +566,7 @@ func Exec(op string) string {
 	if sc.HashH() != sc.H || bal_slb.GetHash(IPBytes(sc.IP), 1000003) != int(sc.H%1000003) {
 		return fmt.Sprintf("bad-w:%d", sc.HashH())
 	}
-	r := &runner{sc: sc, label: map[*backend.BfeBackend]string{}}
+	r := &runner{sc: sc, label: map[*backend.BfeBackend]string{}, removed: map[*backend.BfeBackend]bool{}}
 
 	proto := "http"
 	rl, rm, cr := sc.Rl, sc.Rm, sc.Cr
@@ -564,6 +594,7 @@ func Exec(op string) string {
 		}
 		cb[s.Name] = l
 	}
+	cbOrig := cb
 	env, err := bfe_server.VerifC07NewEnv("c", conf, gslb, cb, r, r.forward)
 	if err != nil {
 		return "err:init"
@@ -648,14 +679,30 @@ func Exec(op string) string {
 		if st.Flip != 0 {
 			// a health-check event on the real BfeBackend while requests may be in flight on it
 			if st.K < len(r.all) {
-				if st.Flip == 'u' {
+				switch st.Flip {
+				case 'u':
 					r.all[st.K].SetRestart(true)
 					r.all[st.K].SetAvail(true)
-				} else {
+				case 'd':
 					r.all[st.K].SetAvail(false)
+				case 'x':
+					// reload of the backend table without backend #K (real BackendReload -> BalanceRR.Update): requests in
+					// flight keep the OLD object, which is what the harness keeps reading
+					r.removed[r.all[st.K]] = true
+					cb2 := cluster_table_conf.ClusterBackend{}
+					for i, s := range sc.Subs {
+						l := cluster_table_conf.SubClusterBackend{}
+						for j := range s.Backs {
+							if !r.removed[r.backs[i][j]] {
+								l = append(l, cbOrig[s.Name][j])
+							}
+						}
+						cb2[s.Name] = l
+					}
+					env.Bal.BackendReload(cb2)
 				}
 			}
-			out = append(out, fmt.Sprintf("%c%d:cn=%s", st.Flip, st.K, r.conn()))
+			out = append(out, fmt.Sprintf("%c%d:cn=%s;fl=%s", st.Flip, st.K, r.conn(), r.fails()))
 			continue
 		}
 		c := states[st.K]
@@ -681,15 +728,20 @@ func Exec(op string) string {
 				return fmt.Sprintf(">res=%s,err=%s,act=%d", rs, errName(err), action)
 			})
 			if strings.HasPrefix(line, "PANIC") {
+				// conn.serve() recovers the panic, the connection goroutine ends, FinishReq is never called
 				c.dead = true
-				line = "!" + line
+				if strings.HasPrefix(line, "PANIC:scripted") {
+					line = "!cbpanic"
+				} else {
+					line = "!" + line
+				}
 			}
 			x := 0
 			if c.req.Stat.IsCrossCluster {
 				x = 1
 			}
-			out = append(out, fmt.Sprintf("i%d:%s%s;rt=%d;ec=%s;x=%d;cn=%s", st.K, strings.Join(c.events, ","), line,
-				c.req.RetryTime, errName(c.req.ErrCode), x, r.conn()))
+			out = append(out, fmt.Sprintf("i%d:%s%s;rt=%d;ec=%s;x=%d;cn=%s;fl=%s", st.K, strings.Join(c.events, ","), line,
+				c.req.RetryTime, errName(c.req.ErrCode), x, r.conn(), r.fails()))
 		} else {
 			if !c.invoked || c.done {
 				return "bad-op"
